@@ -382,9 +382,11 @@ func vfH_upgrade_logic() {
 		}
 		for _, wl := range want {
 			found := false
+			// application-supplied values may appear with control bytes neutralised
+			alt := vfScrub(wl)
 			for _, gl := range got {
 				if len(gl) == len(wl) {
-					found = vfOr(found, vfStrEq(gl, wl))
+					found = vfOr(found, vfOr(vfStrEq(gl, wl), vfStrEq(gl, alt)))
 				}
 			}
 			vfAssert(found, "c12-101-has-expected-line")
